@@ -300,8 +300,8 @@ def deliver(local, sc, cfg, hev, wire):
     local.count("deliver_labels", len(lines))
     for idx, (line, o) in enumerate(zip(lines, outs)):
         if line == "final":
-            if "quiescent=true" not in o:
-                bad(f"run ended but the model is not quiescent: {o}")
+            if "quiescent=true" not in o or "idle=true" not in o:
+                bad(f"run ended but the model is not settled (C01Live.settled): {o}")
             continue
         if not o.startswith("ok"):
             bad(f"label '{line[:200]}' -> {o[:300]} at {origin[idx]!r}")
